@@ -38,12 +38,12 @@ def i12(cx):
         fn = F.impl_fn(im, 'poll')
         g = cx.graph(fn['key'])
         label = cx.label(fn)
-        FUR = roles.field_where(cx, tag, lambda t, ti: F.mentions(ti, lambda x: x['k'] == 'dyn' and any(tr['p'].endswith('Future') for tr in x['tr'])), 'timer future')
+        FURS = roles.field_where(cx, tag, lambda t, ti: F.mentions(ti, lambda x: x['k'] == 'dyn' and any(tr['p'].endswith('Future') for tr in x['tr'])), 'timer future', unique=False)
         INTERVAL = roles.field_where(cx, tag, lambda t, ti: t['k'] == 'adt' and t['p'] == 'std::time::Duration', 'period')
         SEQ = roles.field_where(cx, tag, lambda t, ti: t['s'] == 'usize', 'sequence counter')
         tasks = [x for x in g.nodes if x['kind'] == 'call' and x['name'] == '<fnptr>' and not x['ctx']]
         fur_polls = {strip(x['value']) for x in g.nodes if x['kind'] == 'call' and x['name'].rsplit('::', 1)[-1] in ('poll_unpin', 'poll') and x['args']
-                     and access_path(x['args'][0])[1][-1:] == [FUR]}
+                     and access_path(x['args'][0])[1][-1:] and access_path(x['args'][0])[1][-1] in FURS}
         # I2
         def step(st, nd, lab):
             if st.startswith('BAD'):
@@ -62,9 +62,9 @@ def i12(cx):
                     return 'timer'
                 return 'BAD:timer-not-interval'
             if st == 'timer':
-                if nd['kind'] == 'call' and nd['name'] in ('std::mem::swap', 'std::mem::replace') and any(access_path(a)[1][-1:] == [FUR] for a in nd['args']):
+                if nd['kind'] == 'call' and nd['name'] in ('std::mem::swap', 'std::mem::replace') and any(access_path(a)[1][-1:] and access_path(a)[1][-1] in FURS for a in nd['args']):
                     return 'armed'
-                if nd['kind'] == 'assign' and access_path(nd['lhs'])[1][-1:] == [FUR]:
+                if nd['kind'] == 'assign' and access_path(nd['lhs'])[1][-1:] and access_path(nd['lhs'])[1][-1] in FURS:
                     return 'armed'
             return st
         reached, pred = explore(g, 'armed', step)
@@ -123,7 +123,7 @@ def i12(cx):
                 a = strip(x['rhs'])
                 names = a[5]
                 SEQ = roles.field_where(cx, 'scheduler::RepeatTask', lambda t, ti: t['s'] == 'usize', 'sequence counter')
-                FUR = roles.field_where(cx, 'scheduler::RepeatTask', lambda t, ti: F.mentions(ti, lambda x: x['k'] == 'dyn' and any(tr['p'].endswith('Future') for tr in x['tr'])), 'timer future')
+                FURS2 = roles.field_where(cx, 'scheduler::RepeatTask', lambda t, ti: F.mentions(ti, lambda x: x['k'] == 'dyn' and any(tr['p'].endswith('Future') for tr in x['tr'])), 'timer future', unique=False)
                 if SEQ in names:
                     v = strip(a[3][names.index(SEQ)])
                     ok = const_int(v) == 0
@@ -133,7 +133,7 @@ def i12(cx):
             for x in aggs:
                 a = strip(x['rhs'])
                 names = a[5]
-                if FUR in names:
+                for FUR in [f_ for f_ in FURS2 if f_ in names][:1]:
                     v = strip(a[3][names.index(FUR)])
                     okf = v[0] == 'call' and v[1].endswith('new_timer') and bool(v[2]) and strip(v[2][0])[0] == 'arg'
                     if not okf:
